@@ -181,6 +181,13 @@ def _net(ctx, p):
                     net.add_edge([labs[i] for i in e], idx=j + 10)
             net.set_node_attributes({n: {"k": 7} for n in list(net._node)[:1]})
             net["name"] = "vx"
+            if p.get("rich_attrs"):
+                # container-valued attribute values (e.g. what merge_rule="union" leaves behind)
+                for n in list(net._node)[:1]:
+                    net._node_attr[n].update({"tags": {"a", "b"}, "path": [1, [2, 3]], "t": (1, 2)})
+                for e in list(net._edge)[:1]:
+                    net._edge_attr[e].update({"tags": {"x"}, "meta": {"s": frozenset({1}), "l": [0]}, "w": 2})
+                net._net_attr["opts"] = {"set": {1, 2}, "list": [{"k": {3}}]}
         return net, labs, list(net._edge)
     if cls == "D":
         net, nl, el, c = nets.build_D(ctx, (s[0], s[1], tuple((tuple(t), tuple(h)) for t, h in s[2])), attrs=True)
@@ -299,11 +306,15 @@ def spec(tier, seed):
         if name in SKIP:
             continue
         p0 = None if inspect.isclass(f) else list(inspect.signature(f).parameters)[0]
+        rich = {c: min((x for x in sh[c] if x[0] >= 2 and x[1] >= 1 and any(len(e) for e in x[2])), key=lambda x: (x[0] + x[1], str(x))) for c in "HDS"}
         for cls in "HDS":
             heavy = name.startswith("draw") or name.endswith("_layout")
             for k, s in enumerate(sh[cls][:2] if heavy and tier == "quick" else sh[cls]):
                 for mode in (("sym", "conc") if tier != "quick" or k < 2 else (("sym",) if k % 2 == 0 else ("conc",))):
                     units.append(("C08.func", {"f": name, "cls": cls, "shape": s, "mode": mode, "kind": name}))
+                if k == (1 if len(sh[cls]) > 1 else 0) and not inspect.isclass(f):
+                    # container-valued attribute values at the three levels, on one shape per class
+                    units.append(("C08.func", {"f": name, "cls": cls, "shape": rich[cls], "mode": "conc", "kind": name, "rich_attrs": True}))
                 if k == 1 and not heavy and not inspect.isclass(f):
                     # every combination of the boolean options, on one shape per class
                     units.append(("C08.func", {"f": name, "cls": cls, "shape": s, "mode": "conc", "kind": name, "flags": True}))
